@@ -319,6 +319,29 @@ class Evaluator:
                     out[a.asname or a.name] = a.name
         return out
 
+    def _module_constant(self, name: str, st: "State") -> Optional[Term]:
+        """Module-level `NAME = <literal>` (tuple/dict/str/number displays of literals, enum members): its value.  Only names
+        assigned exactly once at module level and never rebound inside functions (`global NAME`) are treated as constants."""
+        cache = self.__dict__.setdefault("_mc_cache", {})
+        key = (self.module, name)
+        if key in cache:
+            return cache[key]
+        val = None
+        tree = self.repo.module(self.module).tree
+        defs = [s_ for s_ in tree.body if isinstance(s_, (ast.Assign, ast.AnnAssign))
+                and any(isinstance(t, ast.Name) and t.id == name for t in (s_.targets if isinstance(s_, ast.Assign) else [s_.target]))]
+        rebound = any(isinstance(n, ast.Global) and name in n.names for n in ast.walk(tree))
+        if len(defs) == 1 and not rebound and defs[0].value is not None and _is_literal(defs[0].value):
+            tmp = State()
+            v = self.eval(defs[0].value, tmp)
+            # literal lists become immutable tuples of items for reading purposes
+            ob = tmp.obj(v)
+            if ob is not None and ob.get("kind") == "list":
+                v = ("tuple",) + tuple(ob["items"])
+            val = v
+        cache[key] = val
+        return val
+
     def _module_function(self, name: str):
         for st_ in self.repo.module(self.module).tree.body:
             if isinstance(st_, ast.FunctionDef) and st_.name == name:
@@ -383,7 +406,60 @@ class Evaluator:
         m = getattr(self, "st_" + type(node).__name__, None)
         if m is None:
             raise AnalysisError(f"statement kind {type(node).__name__} not supported by the evaluator: {norm(node)[:80]}")
+        if isinstance(node, (ast.Expr, ast.Assign, ast.AugAssign, ast.AnnAssign, ast.Return)):
+            nested = self._nested_inlinable_calls(node, st)
+            if nested:
+                return self._with_lifted_calls(node, nested, st, m)
         return m(node, st)
+
+    def _nested_inlinable_calls(self, node: ast.stmt, st: State) -> List[ast.Call]:
+        """Calls to inlinable functions nested inside the statement's expression (not the statement's own top-level call, not
+        under a conditional expression / boolean operator / lambda / comprehension, where evaluation is conditional), inner
+        first."""
+        top = node.value if isinstance(node, (ast.Expr, ast.Assign, ast.AugAssign, ast.AnnAssign, ast.Return)) else None
+        if top is None:
+            return []
+        out: List[ast.Call] = []
+
+        def walk(e, is_top):
+            if isinstance(e, (ast.Lambda, ast.ListComp, ast.SetComp, ast.DictComp, ast.GeneratorExp, ast.IfExp, ast.BoolOp)):
+                return
+            for ch in ast.iter_child_nodes(e):
+                walk(ch, False)
+            if isinstance(e, ast.Call) and not is_top:
+                try:
+                    tgt = self._resolve_callee(e, st.copy())
+                except AnalysisError:
+                    tgt = None
+                if tgt is not None:
+                    out.append(e)
+        walk(top, True)
+        return out
+
+    def _with_lifted_calls(self, node, calls: List[ast.Call], st: State, m) -> List[Outcome]:
+        live = [st]
+        done: List[Outcome] = []
+        for c in calls:
+            nxt = []
+            for s in live:
+                tgt = self._resolve_callee(c, s)
+                if tgt is None:
+                    nxt.append(s)
+                    continue
+                for s2, v, ex in self._inline(c, tgt[0], tgt[1], tgt[2], s):
+                    if ex is not None:
+                        done.append(Outcome(s2, ex))
+                    else:
+                        s2.env["__pre__%d" % id(c)] = v
+                        nxt.append(s2)
+            live = nxt
+        for s in live:
+            outs = m(node, s)
+            for o in outs:
+                for c in calls:
+                    o.state.env.pop("__pre__%d" % id(c), None)
+            done.extend(outs)
+        return done
 
     def st_Pass(self, node, st):
         return [Outcome(st, None)]
@@ -564,7 +640,32 @@ class Evaluator:
 
     def st_For(self, node, st):
         it = self.eval(node.iter, st)
+        items = None
+        if it[0] in ("tuple", "list") and len(it) - 1 <= 16 and not any(isinstance(x, tuple) and x and x[0] == "starred" for x in it[1:]):
+            items = list(it[1:])
+        if items is not None and not node.orelse:
+            return self._unroll(node, items, st)
         return self._loop(node, it, st)
+
+    def _unroll(self, node, items, st):
+        """A loop over a concrete tuple (lookup table) is executed item by item."""
+        live = [st]
+        done: List[Outcome] = []
+        for item in items:
+            nxt = []
+            for s in live:
+                self.assign(node.target, item, s)
+                for o in self.exec_block(node.body, s):
+                    if o.exit is None or o.exit[0] == "continue":
+                        nxt.append(o.state)
+                    elif o.exit[0] == "break":
+                        done.append(Outcome(o.state, None))
+                    else:
+                        done.append(o)
+            live = nxt
+            if len(live) + len(done) > self.max_outcomes:
+                raise AnalysisError("path explosion while unrolling a table loop")
+        return done + [Outcome(s, None) for s in live]
 
     def st_While(self, node, st):
         it = ("while", self.eval(node.test, st))
@@ -1080,6 +1181,9 @@ class Evaluator:
                 return fr[node.id]
         if node.id in ("True", "False", "None"):
             return const({"True": True, "False": False, "None": None}[node.id])
+        mc = self._module_constant(node.id, st)
+        if mc is not None:
+            return mc
         if node.id in self.imports:
             return glob(node.id)
         if self.repo.has_class(node.id):
@@ -1236,6 +1340,9 @@ class Evaluator:
     # ------------------------------------------------------------------
     # calls
     def ex_Call(self, node: ast.Call, st: State, stmt_pos: bool = False) -> Term:
+        pre = st.env.get("__pre__%d" % id(node))
+        if pre is not None:
+            return pre
         f = node.func
         # inlinable with a single outcome, in expression position
         target = self._resolve_callee(node, st)
@@ -1542,6 +1649,11 @@ class Evaluator:
         elif k == "sub":
             base, idx = t[1], t[2]
             o = st.obj(base)
+            if o is not None and o.get("kind") == "new" and is_const(idx) and isinstance(idx[1], int) \
+                    and self.repo.has_class(o["cls"]) and self.repo.cls(o["cls"]).is_namedtuple:
+                flds = self.repo.dataclass_fields(o["cls"])
+                if -len(flds) <= idx[1] < len(flds):
+                    return o["fields"].get(flds[idx[1]].name, t)
             if is_const(idx) and isinstance(idx[1], int):
                 items = None
                 if o is not None and o.get("kind") == "list":
@@ -1644,6 +1756,12 @@ class Evaluator:
                 items = list(a[1:])
             if items is not None and all(is_const(x) and isinstance(x[1], str) for x in items):
                 return const(fn[1][1].join(x[1] for x in items))
+        if fn[0] == "attr" and fn[2] == "get" and fn[1][0] == "dict" and args and is_const(args[0]) \
+                and all(is_const(kv[0]) for kv in fn[1][1:]):
+            for kv in fn[1][1:]:
+                if kv[0] == args[0]:
+                    return kv[1]
+            return args[1] if len(args) > 1 else NONE
         if fn == glob("len") and len(args) == 1:
             a = args[0]
             o = st.obj(a)
@@ -1661,6 +1779,23 @@ class Evaluator:
             if r is not None:
                 return const(r)
         return t
+
+
+def _is_literal(e: ast.expr) -> bool:
+    """Displays of constants, enum-member style attribute references and nested tuples/lists/dicts of those."""
+    if isinstance(e, ast.Constant):
+        return True
+    if isinstance(e, ast.Attribute) and isinstance(e.value, ast.Name):
+        return True
+    if isinstance(e, (ast.Tuple, ast.List, ast.Set)):
+        return all(_is_literal(x) for x in e.elts)
+    if isinstance(e, ast.Dict):
+        return all(k is not None and _is_literal(k) and _is_literal(v) for k, v in zip(e.keys, e.values))
+    if isinstance(e, ast.UnaryOp) and isinstance(e.operand, ast.Constant):
+        return True
+    if isinstance(e, ast.JoinedStr):
+        return all(isinstance(v, ast.Constant) for v in e.values)
+    return False
 
 
 def _adopt(dst: State, src: State) -> None:
